@@ -15,6 +15,7 @@ from ptg_gen import ev
 TILES = 16384
 M64 = (1 << 64) - 1
 CHUNKS = [1, 2, 3, 7, 64, 256]
+ITERS = [0, 1, 2, 3, 7, 64, 256]      # task_startup_iter = 0 is accepted by the runtime (`reserved` then never doubles)
 
 
 # ------------------------------------------------------------------ AGAIN answers (mirror of ptg_again_hash / ptg_again_count)
@@ -531,6 +532,27 @@ def prepare(ctx, res, prop, progs, quick):
                         items.append((p, g, b, exe))
     pv.log('[%s] validity of %d (program, globals) pairs in %.1fs' % (prop, stats['valid'] + stats['invalid'], time.time() - t0))
     return items, stats
+
+
+def startup_sweep(again_rng=None):
+    """the re-entry logic of the startup generator on a class with many startup tasks: iter in {0,1,2,3} x chunk in {1,2,3,7}
+    (every invocation returns AGAIN after a handful of tasks, `reserved` hardly ramps up; iter = 0 is the MCA value 0)"""
+    out = []
+    k = 0
+    for it in (0, 1, 2, 3):
+        for ch in (1, 2, 3, 7):
+            cfg = {'sched': ['lfq', 'ap', 'gd', 'rnd'][k % 4], 'threads': [1, 4, 2, 8][k % 4], 'iter': it, 'chunk': ch, 'again': None, 'spin': False}
+            if again_rng is not None and k % 2:
+                cfg['again'] = (again_rng.range(1, 1 << 30), 60, 2)
+            out.append(cfg); k += 1
+    return out
+
+
+def many_startup_program():
+    """corpus/C16/001: one class, G0 + 1 startup instances (first vector of globals: 30 instances)"""
+    p = ptg_gen.Program.from_case(open(os.path.join(pv.ROOT, 'corpus', 'C16', '001-many-startup.case')).read())
+    p.name = 'k16001'
+    return p
 
 
 def interleave(groups):
